@@ -118,12 +118,12 @@ theorem C04_nested (b : Bool) (n c bc : Nat) (s : RCU.St) (h : RCU.model.Reachab
 /-! ### Non-vacuity -/
 
 /-- A reader forces the synchronizer to spin: thread 1 is inside a section when thread 0 retires object 7
-    (instant flavour); after the first flip thread 0 loops on thread 1's control word (4 extra steps below change
-    nothing but the clock) and has disposed nothing. -/
+    (instant flavour); after the first flip thread 0 skips itself (nest 0: no load of the global word) and loops on
+    thread 1's control word (the last 4 steps below change nothing but the clock) and has disposed nothing. -/
 example : ∃ s os, RCU.model.run (RCU.init false 2 1 2)
     [(1, .invoke ⟨"rlock", [1]⟩), (1, .step), (1, .step), (1, .step), (1, .ret),
      (0, .invoke ⟨"retire", [0, 7]⟩), (0, .step), (0, .step), (0, .step), (0, .step),
-     (0, .step), (0, .step), (0, .step), (0, .step), (0, .step), (0, .step)] = some (s, os)
+     (0, .step), (0, .step), (0, .step), (0, .step), (0, .step)] = some (s, os)
     ∧ s.pc 0 = .waitLd ⟨[7], 0⟩ false 1 ∧ s.secStart 1 = some 3 ∧ s.retiredAt 7 = some 5
     ∧ s.mustWait 1 = some 3 ∧ s.disposed 7 = 0 := by
   refine ⟨_, _, rfl, ?_, ?_, ?_, ?_, ?_⟩ <;> decide
@@ -131,32 +131,29 @@ example : ∃ s os, RCU.model.run (RCU.init false 2 1 2)
 /-- ... and once the reader leaves, the synchronizer gets through both rounds and the object is disposed. -/
 example : ∃ s os, RCU.model.run (RCU.init false 2 1 2)
     [(1, .invoke ⟨"rlock", [1]⟩), (1, .step), (1, .step), (1, .step), (1, .ret),
-     (0, .invoke ⟨"retire", [0, 7]⟩), (0, .step), (0, .step), (0, .step), (0, .step),
-     (0, .step), (0, .step),
+     (0, .invoke ⟨"retire", [0, 7]⟩), (0, .step), (0, .step), (0, .step), (0, .step), (0, .step),
      (1, .invoke ⟨"runlock", [1]⟩), (1, .step), (1, .step), (1, .ret),
-     (0, .step), (0, .step),
-     (0, .step), (0, .step), (0, .step), (0, .step), (0, .step),
-     (0, .step), (0, .step), (0, .ret)] = some (s, os)
+     (0, .step), (0, .step), (0, .step), (0, .step), (0, .step), (0, .step), (0, .ret)] = some (s, os)
     ∧ s.pc 0 = .idle ∧ s.secStart 1 = none ∧ s.disposed 7 = 1 ∧ s.locked = none := by
   refine ⟨_, _, rfl, ?_, ?_, ?_, ?_⟩ <;> decide
 
 /-- Why there are two rounds.  Thread 1 loads the global phase between the two flips of a first synchronize and
     completes access_lock after it (phase bit = true, stale).  A second synchronize acquires the mutex while thread 1
-    is inside (`mustWait 1 = secStart 1 = some 17`); its FIRST flip_and_wait passes thread 1 (phases agree), so after
+    is inside (`mustWait 1 = secStart 1 = some 13`); its FIRST flip_and_wait passes thread 1 (phases agree), so after
     one round the pre-existing reader is still inside ... -/
 example : ∃ s os, RCU.model.run (RCU.init false 2 1 1)
     ([(0, .invoke ⟨"synchronize", [0]⟩), (0, .step), (0, .step),
-      (1, .invoke ⟨"rlock", [1]⟩), (1, .step), (1, .step)] ++ List.replicate 10 (0, .step) ++
-     [(0, .ret), (1, .step), (1, .ret), (0, .invoke ⟨"synchronize", [0]⟩)] ++ List.replicate 6 (0, .step)) = some (s, os)
-    ∧ s.pc 0 = .flip ⟨[], 0⟩ true ∧ s.mustWait 1 = some 17 ∧ s.secStart 1 = some 17 ∧ s.ctl 1 = ⟨1, true⟩ := by
+      (1, .invoke ⟨"rlock", [1]⟩), (1, .step), (1, .step)] ++ List.replicate 6 (0, .step) ++
+     [(0, .ret), (1, .step), (1, .ret), (0, .invoke ⟨"synchronize", [0]⟩)] ++ List.replicate 5 (0, .step)) = some (s, os)
+    ∧ s.pc 0 = .flip ⟨[], 0⟩ true ∧ s.mustWait 1 = some 13 ∧ s.secStart 1 = some 13 ∧ s.ctl 1 = ⟨1, true⟩ := by
   refine ⟨_, _, rfl, ?_, ?_, ?_, ?_⟩ <;> decide
 
 /-- ... and the SECOND flip_and_wait spins on it. -/
 example : ∃ s os, RCU.model.run (RCU.init false 2 1 1)
     ([(0, .invoke ⟨"synchronize", [0]⟩), (0, .step), (0, .step),
-      (1, .invoke ⟨"rlock", [1]⟩), (1, .step), (1, .step)] ++ List.replicate 10 (0, .step) ++
-     [(0, .ret), (1, .step), (1, .ret), (0, .invoke ⟨"synchronize", [0]⟩)] ++ List.replicate 15 (0, .step)) = some (s, os)
-    ∧ s.pc 0 = .waitLd ⟨[], 0⟩ true 1 ∧ s.secStart 1 = some 17 := by
+      (1, .invoke ⟨"rlock", [1]⟩), (1, .step), (1, .step)] ++ List.replicate 6 (0, .step) ++
+     [(0, .ret), (1, .step), (1, .ret), (0, .invoke ⟨"synchronize", [0]⟩)] ++ List.replicate 11 (0, .step)) = some (s, os)
+    ∧ s.pc 0 = .waitLd ⟨[], 0⟩ true 1 ∧ s.secStart 1 = some 13 := by
   refine ⟨_, _, rfl, ?_, ?_⟩ <;> decide
 
 /-- Nesting depth 2: the inner unlock keeps the section (and its start clock) open, the outer one closes it. -/
